@@ -20,7 +20,7 @@ H=$( (cd $REPO && find . -path ./examples -prune -o -path ./e2e -prune -o \( -na
 W=$V/.work/$H
 if [ ! -f $W/overlay.json ]; then
   # drop stale generations (keep disk small)
-  for d in $V/.work/*/; do [ "$d" != "$W/" ] && rm -rf "$d"; done 2>/dev/null
+  for d in $V/.work/[0-9a-f][0-9a-f][0-9a-f][0-9a-f][0-9a-f][0-9a-f][0-9a-f][0-9a-f][0-9a-f][0-9a-f][0-9a-f][0-9a-f][0-9a-f][0-9a-f][0-9a-f][0-9a-f]/; do [ "$d" != "$W/" ] && rm -rf "$d"; done 2>/dev/null
   mkdir -p $W
   $V/.bin/instrument -repo $REPO -out $W >&2 || { echo "HARNESS-BROKEN instrumentation failed" >&2; rm -f $W/overlay.json; exit 2; }
 fi
